@@ -116,8 +116,11 @@ def index_clean_elements(res, tree, x, prefixes, m, errors, tag):
         children = list(v.keys()) if isinstance(v, dict) else list(range(len(v))) if isinstance(v, list) else []
         with_err = set(q[len(p)] for q in m if len(q) > len(p) and q[:len(p)] == p)
         node = tree
-        for el in p:
-            node = node[el]
+        try:
+            for el in p:
+                node = node[el]
+        except Exception:
+            continue            # already reported by check_tree (walk-raises / lookup-along-path)
         for c in children:
             if c in with_err:
                 continue
